@@ -85,3 +85,47 @@ func (t *Tap) CountMatching(subs ...string) int {
 	}
 	return n
 }
+
+// MsgHash is a port hook that keeps a running hash over every port event
+// (position, port, time, message type and full metadata including IDs).
+type MsgHash struct {
+	mu  sync.Mutex
+	now func() timing.VTimeInPicoSec
+	N   int
+	h   uint64
+}
+
+// Func implements hooking.Hook.
+func (t *MsgHash) Func(ctx hooking.HookCtx) {
+	pos := posName(ctx.Pos)
+	if pos == "" {
+		return
+	}
+	msg, _ := ctx.Item.(messaging.Msg)
+	if msg == nil {
+		return
+	}
+	m := msg.Meta()
+	t.mu.Lock()
+	t.N++
+	s := fmt.Sprintf("%x|%s|%s|%d|%T|%d|%s|%s|%d|%s|%d", t.h, pos, ctx.Domain.(messaging.Port).Name(), t.now(), msg, m.ID, m.Src, m.Dst, m.RspTo, m.TrafficClass, m.TrafficBytes)
+	var h uint64 = 14695981039346656037
+	for i := 0; i < len(s); i++ {
+		h ^= uint64(s[i])
+		h *= 1099511628211
+	}
+	t.h = h
+	t.mu.Unlock()
+}
+
+// Hash returns the running hash.
+func (t *MsgHash) Hash() string { return fmt.Sprintf("%016x", t.h) }
+
+// AttachMsgHash hooks the ports.
+func AttachMsgHash(ports []messaging.Port, now func() timing.VTimeInPicoSec) *MsgHash {
+	t := &MsgHash{now: now}
+	for _, p := range ports {
+		p.AcceptHook(t)
+	}
+	return t
+}
